@@ -32,6 +32,8 @@ def one(name):
             res["error"] = "patch does not apply: " + out[-300:]
             return name, res
         env = dict(ENV, VERIF_REPO=wt, VERIF_ROOT=f"{wt}/_vroot")
+        env.update(meta.get("check_env", {}))  # e.g. VERIF_C15_IDLE=1: a part of the check that otherwise runs in the thorough tier only
+        res["expected_uncaught"] = meta.get("expected_uncaught", "")
         for ck in checks:
             t0 = time.time()
             rc, out = sh(["/verif/check", ck, "quick"], cwd="/verif", env=env, timeout=7200)
@@ -55,8 +57,8 @@ def main():
                verif_commit=sh("git -C /verif rev-parse --short HEAD")[1].strip(), seeds=results)
     if not sys.argv[1:] or len(names) > 20:
         json.dump(out, open("/verif/seeded/REGRESSION.json", "w"), indent=1, sort_keys=True)
-    missed = [n for n, r in results.items() if not r.get("caught_by")]
-    print("seeds:", len(results), "missed:", missed)
+    missed = [n for n, r in results.items() if not r.get("caught_by") and not r.get("expected_uncaught")]
+    print("seeds:", len(results), "missed:", missed, "deliberately uncaught:", [n for n, r in results.items() if r.get("expected_uncaught")])
     sys.exit(1 if missed else 0)
 
 main()
